@@ -1131,6 +1131,9 @@ func addTagDelta(newBlockE, curBlockE Elements, tagDelta map[Tag]tagDeltaT) {
 		for _, tag := range removed {
 			td, found := tagDelta[tag]
 			if found {
+				if td.erase == nil { // the tag was only being added to so far in this request
+					td.erase = make(map[string]struct{})
+				}
 				td.erase[zyx] = struct{}{}
 			} else {
 				td.erase = map[string]struct{}{
